@@ -623,8 +623,10 @@ def merges(chk, F):
                         ok, detail = sum_dropping_zero(cands[0])
                 chk.decide(ok, "merge-closures", "rink_core::" + fn.path, "merge:add-and-drop-zero", fn.where(bb),
                            "unit exponents are merged with `a + b`, dropping entries that become zero", "a unit-map merge does not use `if a + b != 0 { Some(a + b) } else { None }`: %s" % detail)
-    if n < 3:
-        chk.anchor_lost("merge-closures", "rink_core", "expected >=3 btree_merge call sites, found %d" % n)
+    # (a floor against a rule that matches nothing: today there are three sites; when the duplicated closure is given a name
+    # they become one)
+    if n < 1:
+        chk.anchor_lost("merge-closures", "rink_core", "expected at least one btree_merge call site, found %d" % n)
     # Frac arm negates the right-hand map exactly once
     u = F.find(CORE, "runtime::eval::eval_unit_name")
     negs = 0
